@@ -9,6 +9,7 @@ import (
 	"math"
 	"strconv"
 	"strings"
+	"unicode/utf8"
 
 	"golang.org/x/tools/go/ssa"
 )
@@ -1365,6 +1366,19 @@ func (e *Engine) binop(op token.Token, t types.Type, x, y Value) Value {
 		case token.NEQ:
 			return fromTermB(mkNot(strEq(x, y)))
 		case token.LSS, token.LEQ, token.GTR, token.GEQ:
+			if !(x.isC() && y.isC()) {
+				lt, eq := strLess(x, y)
+				switch op {
+				case token.LSS:
+					return fromTermB(lt)
+				case token.LEQ:
+					return fromTermB(mkOr(lt, eq))
+				case token.GTR:
+					return fromTermB(mkNot(mkOr(lt, eq)))
+				default:
+					return fromTermB(mkNot(lt))
+				}
+			}
 			if x.isC() && y.isC() {
 				c := strings.Compare(x.S, y.S)
 				switch op {
@@ -1784,58 +1798,88 @@ func (e *Engine) ptrFromInt(x PtrInt) Value {
 
 // decodeRunes decodes UTF-8 from possibly-symbolic bytes, forking on byte classes.
 func (e *Engine) decodeRunes(s Str) []Int {
+	rs, _ := e.decodeRunesSz(s)
+	return rs
+}
+
+// decodeRunesSz also returns the encoded size of every rune (1 for invalid bytes).
+func (e *Engine) decodeRunesSz(s Str) ([]Int, []int) {
 	var out []Int
+	var sizes []int
 	i := 0
 	for i < s.Len() {
 		b := s.byteAt(i)
 		if b.T == nil {
 			if b.V < 0x80 {
 				out = append(out, mkInt(32, b.V))
+				sizes = append(sizes, 1)
 				i++
 				continue
 			}
-			// concrete lead byte: decode using concrete bytes if all concrete
-			j := i + 1
-			for j < s.Len() && j < i+4 && s.byteAt(j).T == nil {
-				j++
-			}
-			r, size := decodeRuneConcrete(s.S[i:j])
-			out = append(out, mkInt(32, uint64(r)))
-			i += size
-			continue
-		}
-		if e.Branch(mk("bvult", 0, b.T, bvConst(8, 0x80))) {
+		} else if e.Branch(mk("bvult", 0, b.T, bvConst(8, 0x80))) {
 			out = append(out, fromTermI(mkZext(32, b.T)))
+			sizes = append(sizes, 1)
 			i++
 			continue
 		}
-		// non-ASCII symbolic byte: concretize the following bytes needed (bounded forks)
-		v := byte(e.Concretize(b))
-		buf := []byte{v}
-		for j := i + 1; j < s.Len() && j < i+4; j++ {
+		// non-ASCII lead byte: make it and the (up to 3) following bytes concrete, forking over the
+		// feasible values of those that are symbolic
+		buf := []byte{byte(e.Concretize(b))}
+		need := 1
+		switch {
+		case buf[0] >= 0xf0:
+			need = 4
+		case buf[0] >= 0xe0:
+			need = 3
+		case buf[0] >= 0xc2:
+			need = 2
+		}
+		for j := i + 1; j < s.Len() && j < i+need; j++ {
 			bj := s.byteAt(j)
+			if bj.T != nil {
+				// only whether it is a continuation byte matters unless the sequence completes
+				if !e.Branch(mkAnd(mk("bvuge", 0, bj.T, bvConst(8, 0x80)), mk("bvule", 0, bj.T, bvConst(8, 0xbf)))) {
+					break
+				}
+			}
 			buf = append(buf, byte(e.Concretize(bj)))
 		}
 		r, size := decodeRuneConcrete(string(buf))
 		out = append(out, mkInt(32, uint64(r)))
+		sizes = append(sizes, size)
 		i += size
 	}
-	return out
+	return out, sizes
 }
 
 func decodeRuneConcrete(s string) (rune, int) {
-	for _, r := range s {
-		n := len(string(r))
-		if r == 0xFFFD {
-			// could be invalid (size 1) or literal U+FFFD (size 3)
-			if len(s) >= 3 && s[:3] == "�" {
-				return r, 3
-			}
-			return r, 1
-		}
-		return r, n
+	r, size := utf8.DecodeRuneInString(s)
+	if size == 0 {
+		return utf8.RuneError, 1
 	}
-	return 0xFFFD, 1
+	return r, size
 }
 
 var _ = math.MaxInt64
+
+// strLess: lexicographic (bytewise, unsigned) order of two possibly symbolic strings as terms
+// (a < b, a == b); no forks.
+func strLess(a, b Str) (*Term, *Term) {
+	n := a.Len()
+	if b.Len() < n {
+		n = b.Len()
+	}
+	lt := boolConst(a.Len() < b.Len())
+	eq := boolConst(a.Len() == b.Len())
+	for i := n - 1; i >= 0; i-- {
+		x, y := a.byteAt(i).term(), b.byteAt(i).term()
+		bl := mk("bvult", 0, x, y)
+		be := mkEq(x, y)
+		if x.Op == "bvconst" && y.Op == "bvconst" {
+			bl = boolConst(x.Val < y.Val)
+		}
+		lt = mkOr(bl, mkAnd(be, lt))
+		eq = mkAnd(be, eq)
+	}
+	return lt, eq
+}
